@@ -36,6 +36,15 @@ hdr = ["Each of the 20 properties was given to a fresh sub-agent that saw only t
        "`seeded/<id>-<k>/` (patch.diff, demo, meta.json, checks.txt = which checks fired and their first",
        "report). None of these changes is committed in /repo.",
        "",
+       "First pass (checker as it stood when the changes came back): 24 of the 40 were reported by their",
+       "own property's check, 3 more only by another property's check, 13 by none. Each miss was traced",
+       "to a clause the rules did not yet decide, and a structural rule was added where one exists that is",
+       "a necessary condition of the property and silent on the unchanged tree (column \"note\"); the",
+       "patches were also added to `mutants/` so the thorough tier keeps exercising them. After that pass",
+       "all 40 are reported by their own property's check. The same strengthening found two more genuine",
+       "defects on the unchanged tree (C16.X6, C14.N4 — §6). The sub-agents also reported behaviours of",
+       "the unchanged tree that no static rule here decides (§6, last paragraph).",
+       "",
        "| change | what it does | own property's check fires | other checks that fire | note |",
        "|--------|--------------|---------------------------|------------------------|------|"]
 body = "\n".join(hdr + rows)
